@@ -417,10 +417,16 @@ where
         let total = ((self.cases(ctx.tier) as f64) * ctx.scale).ceil() as u64;
         let strat = (self.strat)(ctx);
         let mut idx = ctx.worker as u64;
+        let mut last_snap = Instant::now();
         while idx < total {
             if idx < from {
                 idx += ctx.nworkers as u64;
                 continue;
+            }
+            // what was counted so far survives a watchdog kill of this worker
+            if last_snap.elapsed() > Duration::from_millis(1500) {
+                snapshot_stats(stats);
+                last_snap = Instant::now();
             }
             hb.beat(part_no, idx);
             let mut runner = runner_for(ctx.seed, &ctx.prop, self.name, idx);
@@ -641,8 +647,19 @@ pub fn set_mem_limit(bytes: u64) {
     }
 }
 
+static SNAP_PATH: std::sync::OnceLock<PathBuf> = std::sync::OnceLock::new();
+
+/// Write the worker's statistics so far to its output file (not `done`).
+pub fn snapshot_stats(stats: &Stats) {
+    if let Some(out) = SNAP_PATH.get() {
+        let snap = WorkerOut { stats: stats.clone(), violation: None, done: false };
+        write_atomic(out, &serde_json::to_vec(&snap).unwrap());
+    }
+}
+
 pub fn worker_main(def: &PropDef, ctx: &Ctx, out: &Path, hb_path: &Path, resume: (u64, u64)) {
     set_mem_limit(8 << 30);
+    let _ = SNAP_PATH.set(out.to_path_buf());
     let hb = Heartbeat::open(hb_path);
     let mut stats = Stats::new();
     let mut result = WorkerOut::default();
